@@ -13,6 +13,7 @@ import MosVerif.Lemmas.MarkerLemmas
 import MosVerif.Lemmas.MemCacheLemmas
 import MosVerif.Lemmas.QCacheLemmas
 import MosVerif.Lemmas.TranslatedC07
+import MosVerif.Lemmas.TranslatedCacheKey
 import MosVerif.Generated.Facts
 namespace MosVerif.C07
 
